@@ -81,9 +81,9 @@ def network_case(ctx, out, desc, tseed):
         out.spec_fail(dict(canon, symptom='raises', exc=tag(e)), 'transformed description fails to solve', gen_net.pretty(desc),
                       impl=dict(transformed=gen_net.pretty(desc2)), desc=desc, tseed=tseed); return
     out.nontrivial(('net', gen_net.shape(desc), bool(flips)))
-    srcv = [abs(complex(b.element.V)) for b in net.branches if np.isfinite(complex(b.element.V))]
-    scale = max([abs(x) for x in list(pot.values()) + list(v.values())] + srcv + [1e-300])   # incl. source magnitudes: shorted big sources leave tiny, cancellation-dominated potentials
-    iscale = max([abs(x) for x in i.values()] + [gen_net.ymax_json(gen_net.desc_to_json(desc)) * scale])
+    ps, is_ = gen_net.net_scales(net)          # incl. source magnitudes: shorted big sources leave tiny, cancellation-dominated values
+    scale = max([abs(x) for x in list(pot.values()) + list(v.values())] + [ps, 1e-300])
+    iscale = max([abs(x) for x in i.values()] + [is_, 1e-300])
     shift = pot[next(k for k, s in sigma.items() if s == desc2['zero'])]
     def fail(what, **impl):
         out.spec_fail(dict(canon, symptom=what), f'{what} changed under renaming / permutation / reversal / re-referencing',
@@ -98,25 +98,82 @@ def network_case(ctx, out, desc, tseed):
     out.traces_validated += 1
     out.sample(dict(original=gen_net.pretty(desc), transformed=gen_net.pretty(desc2)))
     # ---- port impedance between two nodes is invariant as well (C06 domain)
+    compare_ports(out, net, net2, sigma, sorted(sigma), fail, tol, core.Rng(tseed, 'port'), 2)
+
+def reduced_cond(net, a, b):
+    """condition number of the reduced system the port computation solves (all-zero node columns dropped)"""
+    from CircuitCalculator.Network import transformers as trf
+    from CircuitCalculator.Network.NodalAnalysis import node_analysis as na
+    try:
+        A = na.nodal_analysis_coefficient_matrix(trf.switch_ground_node(network=net, new_ground=b))
+        keep = A.any(axis=0)
+        return float(np.linalg.cond(A[np.ix_(keep, keep)])) if keep.any() else 1.0
+    except Exception:
+        return 1.0
+
+def compare_ports(out, net, net2, sigma, ports, fail, tol, prng, npairs, admit=None):
     from CircuitCalculator.Network.NodalAnalysis.node_analysis import open_circuit_impedance
-    labels = sorted(sigma)
-    prng = core.Rng(tseed, 'port')
-    for _ in range(2):
-        if len(labels) < 2: break
-        a, b = prng.sample(labels, 2)
+    pairs = [(a, b) for a in ports for b in ports if a != b]
+    prng.shuffle(pairs)
+    for a, b in pairs[:npairs]:
         def z_of(n, x, y):
             try:
                 return ('ok', complex(open_circuit_impedance(n, x, y)))
             except Exception as e:
                 return ('err', tag(e))
+        if admit is not None and not admit(a, b):
+            out.count('port_outside_domain'); continue
+        c = max(reduced_cond(net, a, b), reduced_cond(net2, sigma[a], sigma[b]))
+        if not c < 1e8:
+            out.skip('port_ill_conditioned'); continue
         z1, z2 = z_of(net, a, b), z_of(net2, sigma[a], sigma[b])
         out.count('port_compared')
         if z1[0] != z2[0] or (z1[0] == 'err' and z1[1] != z2[1]):
-            fail('port_impedance_outcome', nodes=(a, b), a=str(z1), b=str(z2)); return
-        zs = [abs(1 / b.element.Y) for b in net.branches if np.isfinite(complex(b.element.Y)) and b.element.Y != 0]
+            fail('port_impedance_outcome', nodes=(a, b), a=str(z1), b=str(z2)); return False
+        zs = [abs(1 / br.element.Y) for br in net.branches if np.isfinite(complex(br.element.Y)) and br.element.Y != 0]
         zscale = max(zs + [1e-300])          # a shorted port reads 0 up to rounding noise of the network's own impedance scale
-        if z1[0] == 'ok' and np.isfinite(z1[1]) and not core.rclose(z2[1], z1[1], zscale, max(tol, 1e-7)):
-            fail('port_impedance', nodes=(a, b), a=str(z1[1]), b=str(z2[1])); return
+        if z1[0] == 'ok' and np.isfinite(z1[1]) and np.isfinite(z2[1]) and not core.rclose(z2[1], z1[1], zscale, max(tol, min(1e-5, c * 1e-12), 1e-7)):
+            fail('port_impedance', nodes=(a, b), a=str(z1[1]), b=str(z2[1])); return False
+    return True
+
+def port_case(ctx, out, desc, tseed):
+    """Port impedances of a network that also has nodes hanging only on zero-admittance branches (open circuits,
+    ideal current sources): the computation drops those nodes, so the index bookkeeping depends on how labels sort."""
+    out.evaluations += 1
+    rng = core.Rng(tseed, 'dangling')
+    desc = dict(branches=[dict(d, args=dict(d['args'])) for d in desc['branches']], zero=desc['zero'])
+    labels = sorted({d['n1'] for d in desc['branches']} | {d['n2'] for d in desc['branches']})
+    dang = []
+    for k in range(rng.randint(1, 2)):
+        name = rng.choice(['!d', '#', '0a', 'A', 'M', 'a', 'm', 'zz', '~']) + str(k)
+        if name in labels: continue
+        dang.append(name)
+        for j in range(rng.randint(1, 2)):
+            other = rng.choice(labels + dang[:-1])
+            kind = rng.choice(['open', 'open', 'cs_ideal'])
+            n1, n2 = (name, other) if rng.random() < 0.5 else (other, name)
+            desc['branches'].append(dict(n1=n1, n2=n2, id=f'dg{k}{j}', kind=kind, args=gen_net.gen_args(rng, kind)))
+    if not dang: return
+    desc2, sigma, tau, flips = transform_desc(core.Rng(tseed, 'net'), desc)
+    try:
+        net = gen_net.to_impl(desc); net2 = gen_net.to_impl(desc2)
+    except Exception as e:
+        out.count('port_case_unbuildable:' + tag(e)); return
+    canon = dict(level='port', kinds=sorted({d['kind'] for d in desc['branches']}))
+    def fail(what, **impl):
+        out.spec_fail(dict(canon, symptom=what), f'{what} changed under renaming / permutation / reversal / re-referencing',
+                      gen_net.pretty(desc), impl=dict(transformed=gen_net.pretty(desc2), **impl), pdesc=desc, tseed=tseed)
+    out.nontrivial(('port', gen_net.shape(desc), len(dang)))
+    from props import c06 as pc06
+    jnet = gen_net.desc_to_json(desc)
+    def admit(a, b):
+        # the port impedance must be defined (unit-current injection consistent and determined: exact model), and the
+        # case must not be the recorded C06 finding (a floating group of nodes leaves the pruned matrix singular)
+        if ctx.driver is None or pc06.has_self_loop(desc) or pc06.has_vs_loop(desc): return False
+        if pc06.port_facts(desc, a, b)['floating_island']: return False
+        return bool(ctx.driver.call('port_spec', net=jnet, n1=a, n2=b)['defined'])
+    if compare_ports(out, net, net2, sigma, labels, fail, 1e-8, core.Rng(tseed, 'port'), 6, admit):
+        out.traces_validated += 1
 
 CNEG = {'dc_voltage_source': 'V', 'ac_voltage_source': 'V', 'dc_current_source': 'I', 'ac_current_source': 'I', 'complex_voltage_source': 'V'}
 
@@ -280,7 +337,8 @@ def state_case(ctx, out, desc, tseed):
 
 def run(ctx, out):
     out.rule = ('random well-posed networks (C01 domain) and RLC circuits (C02 domain) × one random transformation each '
-                '(bijective renaming from adversarial pools ∘ permutation ∘ reversed subset ∘ new reference); distinct by '
+                '(bijective renaming from adversarial pools ∘ permutation ∘ reversed subset ∘ new reference); port impedances of the same networks and of networks extended by nodes hanging only on '
+                'zero-admittance branches (ports on which the exact model says the impedance is defined); distinct by '
                 '(level, shape / kind multiset, frequency class, whether a reversal occurred)')
     rng = ctx.rng('random')
     n1, n2 = (200, 150) if ctx.quick else (5000, 4000)
@@ -288,6 +346,10 @@ def run(ctx, out):
         if ctx.time_left() < 20: break
         network_case(ctx, out, gen_net.random_desc(rng, exact=rng.random() < 0.6, n_nodes=rng.randint(2, 7),
                                                    degenerate=rng.choice([0.0, 0.0, 0.15, 0.3])), rng.randrange(1 << 30))
+    for k in range(120 if ctx.quick else 3000):
+        if ctx.time_left() < 30: break
+        port_case(ctx, out, gen_net.random_desc(rng, exact=rng.random() < 0.6, n_nodes=rng.randint(2, 6), degenerate=rng.choice([0.0, 0.0, 0.2]),
+                                                kinds=gen_net.PASSIVE_KINDS + ['vs_ideal', 'vs_lossy', 'cs_lossy']), rng.randrange(1 << 30))
     for k in range(n2):
         if ctx.time_left() < 30: break
         circuit_case(ctx, out, gen_circ.random_circuit(rng), rng.choice([0.0, 1.0, 2.0]), rng.randrange(1 << 30))
@@ -298,5 +360,6 @@ def run(ctx, out):
 
 def replay(ctx, out, rp):
     if 'sdesc' in rp: state_case(ctx, out, rp['sdesc'], rp['tseed'])
+    elif 'pdesc' in rp: port_case(ctx, out, rp['pdesc'], rp['tseed'])
     elif 'desc' in rp: network_case(ctx, out, rp['desc'], rp['tseed'])
     else: circuit_case(ctx, out, rp['comps'], rp['w'], rp['tseed'])
